@@ -10,6 +10,10 @@ import orc
 def run(res, replay=None):
     # structural tie of phasegen/rewards.py: translate the CURRENT source and re-check proofs/GenRewardsEquiv.v against it
     import translate_step; (res.proof is not None) and translate_step.run(res.proof, pid=res.pid, tie='rewards')
+    # structural tie of the numeric loop _accumulate (the source-level decomposition theorems of analysis/SourceLinear.v / SourceCovariance.v are about it): translate the CURRENT source and re-check proofs/GenLoopsEquiv.v
+    import translate_step; (res.proof is not None) and translate_step.run(res.proof, pid=res.pid, tie='loops')
+    # structural tie of the moment assembly (accumulate: centring, permutation average): translate the CURRENT source and re-check proofs/GenMomentsEquiv.v
+    import translate_step; (res.proof is not None) and translate_step.run(res.proof, pid=res.pid, tie='moments')
     rng = random.Random(res.seed)
     res.rule = ('marginals stream: structured configurations with 2-3 demes (n<=4, three models, 1-2 epochs) and two-locus '
                 'configurations: per-population means sum to the mean, covariance entries sum to the variance, symmetry, '
